@@ -203,3 +203,12 @@ for _pid, _txt in {
     "C19": "Round 9/10: both decoders of a field read that field's own raw bytes; the decoded string is stored verbatim; bit 11 is decided by is_ascii of the written name.",
 }.items():
     ADDENDA[_pid] = (ADDENDA.get(_pid, "") + " " + _txt).strip()
+
+# Round 11 (session 7)
+for _pid, _txt in {
+    "C07": "Round 11: the CP437 decoder's totality (ASCII fast path below 0x80 only) is evaluated here too -- extraction of a safe name cannot panic in the decoder.",
+    "C15": "Round 11: the recorded compressed size is, for every value the field can receive, the distance the sink moved since the entry's start (it covers the 12-byte encryption header; never a plaintext count).",
+    "C17": "Round 11: the reader steps over each unknown extra record by its full 16-bit length (the extra-field walk), so entries carrying large caller-supplied records read back.",
+    "C18": "Round 11: to_time hands each calendar constructor the stored field itself (no clamp, rollover or other arithmetic), so the constructors' range checks decide.",
+}.items():
+    ADDENDA[_pid] = (ADDENDA.get(_pid, "") + " " + _txt).strip()
